@@ -232,7 +232,7 @@ structure Found where
 
 def lcaRes (seff : List String) (ts : T) : Res Found :=
   match lcaNode seff seff.length ts with
-  | .nf _ _ => .panic "nil ancestor"
+  | .nf _ _ => .err "no common ancestor"   -- since 16b4243 (`if n == nil { return error }`)
   | .found p es tp diff => .ok ⟨p, es, tp, diff⟩
 
 /-- everything `RerootOutGroup` decides before it touches the root branch -/
@@ -254,7 +254,8 @@ def outgroupPlan (strict : Bool) (S : List String) (t1 : T) : Res Plan :=
   let a := rerootP t1 spath none []
   -- a tree of two nodes: `LeastCommonAncestorRecur` fails on `NodeIndex(nil)` and returns
   -- (nil, nil, -1, -1): "not monophyletic" — refused in strict mode, `len(n.br)` on a nil node otherwise
-  (check (decide (1 < a.1.kids.length)) (if strict then .err "notmono" else .panic "nil ancestor")).bind fun _ =>
+  -- (since 16b4243 the nil node is reported as an error in non-strict mode too; before, `len(n.br)` panicked)
+  (check (decide (1 < a.1.kids.length)) (if strict then .err "notmono" else .err "no common ancestor")).bind fun _ =>
   (lcaRes seff a.1).bind fun f =>
   (check (!(f.diff != 0 && strict)) (.err "notmono")).bind fun _ =>
   let b := rerootP a.1 f.p none a.2.2
